@@ -65,6 +65,57 @@ def _iter_created_outside(fn, lp, drv):
     return True
 
 
+def _counter_guard(fn, lp):
+    """`while count < bound { count += 1; .. }` with a loop-invariant bound read from config.max_cycles.
+    Returns dict(sw=block, exit_edge=(b, t, lab), counter=local, incs=[blocks]) or None."""
+    body = set(lp["body"])
+    for b in sorted(body):
+        if fn.term(b)[2] != "switch" or not A.bool_edges(fn, b):
+            continue
+        outs = [(t, lab) for (t, lab) in fn.succ(b) if t not in body]
+        ins = [(t, lab) for (t, lab) in fn.succ(b) if t in body]
+        if len(outs) != 1 or not ins:
+            continue
+        sw = fn.sym_switch(b)
+        cc = A.canon_cmp(sw)
+        if cc is None or cc[0] not in ("<", "<="):
+            continue
+        # which edge continues?
+        cont_label = ins[0][1]
+        cont_true = (cont_label == ("sw", "otherwise"))
+        # continue iff counter < bound  (strict): either `c < bound` on the true edge or `bound <= c` on the false edge
+        if cc[0] == "<" and cont_true:
+            cnt, bound = cc[1], cc[2]
+        elif cc[0] == "<=" and not cont_true:
+            cnt, bound = cc[2], cc[1]
+        else:
+            continue
+        btxt = fmt_sym(bound, maxdepth=8)
+        if not btxt.endswith("config.max_cycles"):
+            continue
+        # the bound must not be recomputed inside the loop: it is the field itself or a local defined once, outside
+        # the counter: the local whose phi the comparison reads
+        op = fn.term(b)[3]
+        counter = None
+        for l, ds in fn.defs().items():
+            if l <= fn.argc:
+                continue
+            incs = [d for d in ds if d[2] == "assign" and d[0] in body and A.increment_of(fn.sym_rvalue(d[3][4])) and A.increment_of(fn.sym_rvalue(d[3][4]))[1] == 1]
+            inits = [d for d in ds if d[0] not in body]
+            others = [d for d in ds if d not in incs and d not in inits]
+            if incs and len(inits) == 1 and not others and fn.locals[l][1] and fn.locals[l][1] in fmt_sym(cnt, maxdepth=6, named=True):
+                # every trip passes an increment: the latches are unreachable from the loop entry without one
+                inc_bbs = [d[0] for d in incs]
+                r = fn.reach(ins[0][0], avoid_blocks=inc_bbs + [lp["header"]])
+                back = any(l2 in r for l2 in lp["latches"]) if lp["header"] not in inc_bbs else False
+                if not back:
+                    counter = (l, inc_bbs, inits[0])
+        if counter is None:
+            continue
+        return {"sw": b, "exit_edge": (b, outs[0][0], outs[0][1]), "counter": counter[0], "incs": counter[1], "init": counter[2]}
+    return None
+
+
 def _bounded(P, R, L):
     fn = L.fn
     # outer: Range<usize> .. max_cycles
@@ -81,8 +132,12 @@ def _bounded(P, R, L):
                 why = "inclusive range `..=`: max_cycles+1 passes"
             if x[0] == "call" and "RangeInclusive" in x[1]:
                 why = "inclusive range `..=`: max_cycles+1 passes"
+    cg = _counter_guard(fn, L.outer) if not ok else None
+    L.counter_guard = cg
     if ok:
         R.hold("a", "%s: cycle loop iterates Range{.., config.max_cycles}" % fn.short_name, fmt_sym(it)[:100], fn)
+    elif cg is not None:
+        R.hold("a", "%s: cycle loop is `while %s < config.max_cycles` with the counter incremented on every trip" % (fn.short_name, fn.local_name(cg["counter"])), fn=fn)
     else:
         R.violate("a", "cycle-loop:%s" % fn.name, "%s: the cycle loop is not `for _ in <start>..config.max_cycles` (%s): the number of passes is not bounded by max_cycles" % (fn.short_name, why), fn)
     # inner: slice iterator over the salience vector, not mutated inside
@@ -95,7 +150,7 @@ def _bounded(P, R, L):
         R.violate("a", "rule-loop:%s" % fn.name, "%s: the rule loop is not an iterator over the per-cycle salience vector (%s)" % (fn.short_name, txt[:120]), fn)
     # every other loop in the function
     for lp in fn.loops():
-        if lp is L.outer or lp is L.inner:
+        if lp is L.outer or lp is L.inner or lp["header"] in (L.outer["header"], L.inner["header"]):
             continue
         drv = A.loop_driver(fn, lp)
         inst = "%s: loop at %s" % (fn.short_name, drv["detail"][:80] or "bb%d" % lp["header"])
@@ -197,7 +252,16 @@ def _counters(P, R, L):
     inits = [d for d in defs if d[0] not in L.outer["body"]]
     inloop = [d for d in defs if d[0] in L.outer["body"]]
     ok = len(inits) == 1 and len(inloop) == 1 and inloop[0][0] not in L.inner["body"]
-    if ok:
+    cg = getattr(L, "counter_guard", None)
+    if ok and cg is not None and cg["counter"] == cc:
+        # while-form: the pass counter is the loop counter itself: 0 before the loop, += 1 at the top of each pass
+        i0 = fn.sym_rvalue(inits[0][3][4]) if inits[0][2] == "assign" else ("unknown",)
+        if strip(i0)[0] == "const" and strip(i0)[2] == 0 and fn.dominates(inloop[0][0], L.inner["header"]):
+            R.hold("c", "%s: cycle_count = 0 before the loop, += 1 at the top of each pass (it is the loop counter), no other definition" % fn.short_name, fn=fn)
+            ok = None
+    if ok is None:
+        pass
+    elif ok:
         sym = fn.sym_rvalue(inloop[0][3][4]) if inloop[0][2] == "assign" else None
         inc = A.increment_of(sym) if sym else None
         item_ok = False
@@ -207,7 +271,9 @@ def _counters(P, R, L):
                     item_ok = True
         i0 = fn.sym_rvalue(inits[0][3][4]) if inits[0][2] == "assign" else ("unknown",)
         ok = item_ok and strip(i0) == ("const", strip(i0)[1], 0) and fn.dominates(inloop[0][0], L.inner["header"])
-    if ok:
+    if ok is None:
+        pass
+    elif ok:
         R.hold("c", "%s: cycle_count = 0 before the loop, := cycle + 1 at the top of each pass, no other definition" % fn.short_name, fn=fn)
     else:
         R.violate("c", "cycle_count:%s" % fn.name, "%s: cycle_count is not exactly `0, then cycle + 1 at the top of every pass` (definitions: %s)" % (
@@ -286,6 +352,9 @@ def _counters(P, R, L):
             c = strip(fn.sym_switch(b))
             if c[0] == "discr" and strip(c[1])[0] == "call" and strip(c[1])[3] == L.outer_drv.get("call_bb") and lab == ("sw", 0):
                 kinds.append("exhausted")
+                continue
+            if getattr(L, "counter_guard", None) is not None and (b, t, lab) == L.counter_guard["exit_edge"]:
+                kinds.append("exhausted")       # `while count < max_cycles` ran out
                 continue
             op = fn.term(b)[3]
             if arf is not None and op[0] in "cm" and not op[1][1] and A._eval_bool_local(fn, op[1][0], {arf: False}) is not None:
